@@ -10,7 +10,7 @@ META = {
                    'winding and the result is inside || on_edge; R17.3 cursor law: WindState::close re-seats the cursor from the subpath '
                    'start on every path, the closing edge runs cursor -> start, a LineTo adds the edge cursor -> point and then moves the '
                    'cursor, a LineTo without cursor starts a subpath; R17.4 WindState::add_edge, which touches its inputs only through comparisons and the sign of one cross product, is interpreted abstractly over all 81 orderings of the end points against the query point x every cross-product sign geometry allows: on_edge must be set exactly when the point is on the closed segment and the count must equal the leftward-ray crossing number under one half-open convention.',
-    'decides': ['R17.1 implicit close', 'R17.2 winding-rule table and result', 'R17.3 cursor law of WindState', 'R17.4 crossing logic of add_edge over the finite set of orderings', 'R16.1/R16.2/R16.4 the flattened path it walks keeps ops, cursor law and winding'],
+    'decides': ['R17.5 the winding state is initialised with the query point (x, y) in that order', 'R17.1 implicit close', 'R17.2 winding-rule table and result', 'R17.3 cursor law of WindState', 'R17.4 crossing logic of add_edge over the finite set of orderings', 'R16.1/R16.2/R16.4 the flattened path it walks keeps ops, cursor law and winding'],
     'does_not_decide': ['agreement with fill on curved input (flattening tolerance)', 'float rounding of the side test'],
     'assumptions': ['lyon_geom flattening accuracy (C16 does_not_decide)'],
 }
@@ -160,6 +160,39 @@ def r17_4(ctx):
                         'what': [{'signs(x1-X,x2-X,y1-Y,y2-Y,cross,dy)': list(k3), 'count_delta': v[1], 'on_edge': v[2]} for k3, v in list(res.items())[:12]]})
 
 
+def r17_5(ctx):
+    """the ray is cast from the query point: the WindState that contains_point builds carries (x, y) = its own x and y
+    arguments, in that order (as two fields, or as one point)"""
+    R = 'R17.5'
+    b = ctx.body(CP, R)
+    an = ctx.an(b)
+    key = 'path_builder::Path::contains_point'
+    aggs = []
+    for d in an.defs:
+        if d.kind == 'assign' and not d.partial and d.bb in an.cfg.reach:
+            t = an.def_term(d)
+            if t[0] == 'agg' and (t[2] or '').endswith('WindState'):
+                aggs.append(t)
+    if not ctx.check(len(aggs) >= 1, R, key + '|state', b.loc(), 'WindState literal found', 'cannot find the WindState that contains_point builds (fail closed)'):
+        return
+    PX, PY = ('param', 3), ('param', 4)
+    for t in aggs:
+        f = dict(t[4])
+        if 'x' in f and 'y' in f:
+            ok = strip_all(f['x']) == PX and strip_all(f['y']) == PY
+        else:
+            from geomalg import VA
+            va = VA(ctx)
+            ok = False
+            for n, v in f.items():
+                if n in ('first_point', 'current_point'):
+                    continue
+                vx, vy = va.vec(v)
+                if vx == Poly.leaf(PX) and vy == Poly.leaf(PY):
+                    ok = True
+        ctx.check(ok, R, key + '|query point', b.loc(), 'the winding state tests against (x, y)', 'the WindState is not initialised with the query point (x, y) in that order: %s' % fmt(b, t)[:200])
+
+
 def run(ctx):
     b = ctx.body(CP, 'R17')
     ms = matches(ctx, b, 'PathOp')
@@ -182,4 +215,4 @@ def run(ctx):
             c16.r16_6(c, fb, fm)
         c16.r16_4(c, fb)
     flatten_rules.__name__ = 'r16_flatten'
-    engine.run_rules(ctx, [r17_4, flatten_rules])
+    engine.run_rules(ctx, [r17_4, r17_5, flatten_rules])
